@@ -6,6 +6,7 @@ Tie: the real ReconnectLogic with a stub client and fake zeroconf under the virt
 histories (start/stop, attempt outcomes incl. hanging ones, expected/unexpected session ends, matching/non-matching mDNS
 records, timers, time); per event the observations and the manager's state must equal the extracted model's, and the
 property predicate is evaluated on the implementation's log."""
+from vlib.privnames import priv, has_priv, set_priv
 import asyncio
 import json
 import random
@@ -95,7 +96,7 @@ class Run:
         self.log = []
         self.aiozc = FakeAioZc(self.log)
         zcm = ZeroconfManager()
-        zcm._aiozc = self.aiozc           # an application-supplied instance
+        set_priv(zcm, "_aiozc", self.aiozc)      # an application-supplied instance (a fake engine, hence not through set_instance)
         self.cli = StubClient(loop, self.log, zcm)
 
         async def on_connect():
@@ -118,10 +119,10 @@ class Run:
 
     def state(self):
         rl = self.rl
-        return f"{rl._connection_state.name},{int(rl._is_stopped)}{int(rl._zc_listening)},{rl._tries}"
+        return f"{priv(rl, "_connection_state").name},{int(priv(rl, "_is_stopped"))}{int(priv(rl, "_zc_listening"))},{priv(rl, "_tries")}"
 
     def timer(self):
-        t = self.rl._connect_timer
+        t = priv(self.rl, "_connect_timer")
         if t is None or t.cancelled():
             return None
         if t.when() < self.loop.time() - 1e-9:
@@ -156,7 +157,7 @@ class Run:
         return out
 
     def _timer_armed(self):
-        t = self.rl._connect_timer
+        t = priv(self.rl, "_connect_timer")
         return t is not None and not t.cancelled() and t in self.loop._scheduled
 
     async def do(self, label, rng, exact=None):
@@ -165,7 +166,7 @@ class Run:
         loop, rl, cli = self.loop, self.rl, self.cli
         n0 = len(self.log)
         before_timer = self.timer() if self._timer_armed() else None
-        before_handle = self.rl._connect_timer
+        before_handle = priv(self.rl, "_connect_timer")
         labels = [label]
         if label == "start":
             await rl.start()
@@ -223,7 +224,7 @@ class Run:
         evs = self.log[n0:]
         del self.log[n0:]
         after_timer = self.timer() if self._timer_armed() else None
-        if after_timer is not None and (after_timer != before_timer or self.rl._connect_timer is not before_handle):
+        if after_timer is not None and (after_timer != before_timer or priv(self.rl, "_connect_timer") is not before_handle):
             evs.append(f"T{after_timer}")
         return labels, evs
 
